@@ -1354,7 +1354,7 @@ namespace bxdecay0 {
             bb_params_.levelE = 996;
           }
           if (ilevel_ == 5) {
-            bb_params_.levelE = 112;
+            bb_params_.levelE = 1182;
           }
           if (ilevel_ == 0 || ilevel_ == 2 || ilevel_ == 5) {
             bb_params_.itrans02 = 0;
